@@ -452,7 +452,7 @@ fn mutate_server_frames(st: &mut S16, codec: Codec, frames: &[(String, Vec<u8>)]
 }
 
 fn boundary_server_cases(st: &mut S16, codec: Codec, regime: Regime) {
-    with_regime(regime, || {
+    (|| {
         for (dn, d) in boundary_durations() {
             for id in [0u64, u64::MAX] {
                 let f = request_with_duration(codec, id, d);
@@ -472,11 +472,11 @@ fn boundary_server_cases(st: &mut S16, codec: Codec, regime: Regime) {
             flood.extend_from_slice(&cancel);
         }
         server_case(st, codec, &format!("[{regime:?}] 100 cancels"), &flood, Some(true));
-    });
+    })()
 }
 
 fn client_cases(st: &mut S16, codec: Codec, regime: Regime, now: Instant, mutate: bool, all_values: bool) {
-    with_regime(regime, || {
+    (|| {
         let ok_reply = frame(&encode_body(codec, &Response::<String> { request_id: 0, message: Ok("r".into()) }));
         // deadlines a local caller may put into the context
         for (dn, d) in boundary_durations() {
@@ -546,7 +546,7 @@ fn client_cases(st: &mut S16, codec: Codec, regime: Regime, now: Instant, mutate
                 }
             }
         }
-    });
+    })()
 }
 
 pub fn run_c16(tier: Tier) -> i32 {
@@ -569,6 +569,12 @@ pub fn run_c16(tier: Tier) -> i32 {
         }
     }
     let all_values = tier == Tier::Thorough;
+    // Jobs that need a tracing subscriber run afterwards, serially, under one subscriber each
+    // (see chain_props::run_c07 for why per-thread subscribers in parallel are unreliable).
+    let (jobs, regime_jobs): (Vec<Job>, Vec<Job>) = jobs.into_iter().partition(|j| match j {
+        Job::Mutate(..) => true,
+        Job::Boundary(_, r) | Job::Client(_, r, _) => *r == Regime::NoSubscriber,
+    });
     let next = AtomicUsize::new(0);
     let total = Mutex::new(S16::default());
     std::thread::scope(|s| {
@@ -607,6 +613,28 @@ pub fn run_c16(tier: Tier) -> i32 {
             });
         }
     });
+    for regime in [Regime::Fmt, Regime::Otel] {
+        with_regime(regime, || {
+            tracing::callsite::rebuild_interest_cache();
+            let rt = tokio::runtime::Builder::new_current_thread().enable_time().start_paused(true).build().unwrap();
+            let mut st = S16::default();
+            rt.block_on(tokio::task::unconstrained(async {
+                let now = tokio::time::Instant::now().into_std();
+                for j in &regime_jobs {
+                    match *j {
+                        Job::Boundary(codec, r) if r == regime => boundary_server_cases(&mut st, codec, r),
+                        Job::Client(codec, r, mutate) if r == regime => client_cases(&mut st, codec, r, now, mutate, all_values),
+                        _ => {}
+                    }
+                }
+            }));
+            let mut t = total.lock().unwrap();
+            t.evals += st.evals;
+            t.distinct.extend(st.distinct);
+            t.failures.extend(st.failures);
+        });
+    }
+    let njobs = jobs.len() + regime_jobs.len();
     let t = total.into_inner().unwrap();
     finish_grid(
         "C16",
@@ -615,7 +643,7 @@ pub fn run_c16(tier: Tier) -> i32 {
         t.evals,
         t.distinct.len() as u64,
         &t.failures,
-        json!({"mutants_still_well_formed": t.wellformed, "mutants_malformed": t.malformed, "jobs": jobs.len()}),
+        json!({"mutants_still_well_formed": t.wellformed, "mutants_malformed": t.malformed, "jobs": njobs}),
         "server: for each codec and each of 6 valid client frames, every single-byte substitution (all 256 values for the first frame and in the thorough tier, a boundary value set otherwise), every truncation, boundary length prefixes and every body of length <=2, fed through the real framed serde transport into a real BaseChannel.execute(echo) followed by a well-formed probe request, which must be answered whenever the odd input still decodes to one message; well-typed boundary messages (ids 0/u64::MAX, deadlines 0 .. Duration::MAX, cancels for unused ids, floods of 100 duplicates) under three subscriber regimes (none, tracing_subscriber::fmt, tracing-opentelemetry); client: every deadline a local caller can put in the context, unsolicited/duplicate responses, and every single-byte substitution/truncation of valid response frames into a real dispatch with one call outstanding. Oracle: no panic anywhere (catch_unwind around every subject run), nothing stuck, probe served",
         vec![json!({"case": "Json frame#0 byte 17 := 0x80 + probe"}), json!({"case": "[Otel] request id 0 deadline 9000y + probe"}), json!({"case": "Bincode [Fmt] local call with deadline now+3y"})],
     )
